@@ -39,7 +39,7 @@ CHECKS = {
 
  'C09': dict(engine='P', technique='exhaustive enumeration of the predefined-summary table (signature conformance) + one-call programs per (entry, argument position) executed natively with tokens vs real taint analysis (tool load path)',
              text='Every table entry is resolved against a program importing all table packages and every Args/Rets index is checked against the real signature; for every entry invocable with type-directed synthesised arguments and every argument position a one-call program carries a token in that argument only: every natively observed flow into a result, a pointer-like argument or the receiver must be reported when the summary is applied.',
-             note='string-like token carriers only; not-invocable entries listed in the evidence; net/ and crypto/ tables only in thorough', ref='§6 C09'),
+             note='string-like token carriers only; not-invocable entries listed in the evidence; net/ and crypto/ entries: signature conformance only (analysing a program importing net/http exceeds the 62 GB of the sandbox)', ref='§6 C09'),
 
  'C12': dict(engine='P', technique='bounded-exhaustive enumeration of dispatch-form sequences + exhaustive native execution with a dynamic call-stack recorder vs pointer call graph / ResolveCallee',
              text='All sequences of <=2 hops over 33 dispatch forms (thorough: plus all 3-hop sequences over 13 core forms); every natively executed function must be in the reachable set and every dynamic caller->callee transfer must have a call-graph path through synthetic wrappers only - in the call graph of the analyzer state and in the stand-alone ComputeCallgraph(PointerAnalysis) graph - and be contained in the dataflow callee resolution.',
